@@ -13,20 +13,20 @@ import (
 )
 
 type funcRun struct {
-	fn       *ssa.Function
-	con      *Contract
-	key      string
-	short    string
-	paths    int
-	maxPaths int
-	exits    int
-	params   map[string]Val
-	inputs   map[string]string
-	loopEnv  map[int]map[string]nameBinding
-	writes   map[int]*loopWrites
-	aborted  string
+	fn        *ssa.Function
+	con       *Contract
+	key       string
+	short     string
+	paths     int
+	maxPaths  int
+	exits     int
+	params    map[string]Val
+	inputs    map[string]string
+	loopEnv   map[int]map[string]nameBinding
+	writes    map[int]*loopWrites
+	aborted   string
 	backedges map[int]int
-	fvAddr   map[string]Val // free variables of a closure (addresses of the captured variables)
+	fvAddr    map[string]Val // free variables of a closure (addresses of the captured variables)
 }
 
 const maxPathsPerFunc = 6000
@@ -516,7 +516,36 @@ func (ex *Exec) exitNormal(st *State, results []Val) {
 		o := ex.newObl(st, "ensures", cl.Label, g, cl.Src, ex.propsOf(cl, con))
 		ex.modelTerms(o, env, results)
 	}
+	// ensures_local: a postcondition that may mention what the function's own callees returned on this
+	// path (returned(f, i)); checked at every normal return on which those calls happened, invisible to callers
+	if lcs := con.clauses("ensures_local"); len(lcs) > 0 {
+		lenv := *env
+		lenv.locals = map[string]Val{}
+		for _, cl := range lcs {
+			g, skipped := ex.evalLocalClause(&lenv, cl, con)
+			if skipped {
+				continue
+			}
+			o := ex.newObl(st, "ensures", cl.Label, g, cl.Src, ex.propsOf(cl, con))
+			ex.modelTerms(o, env, results)
+		}
+	}
 	ex.checkFrame(st, env, "")
+}
+
+// evalLocalClause evaluates an ensures_local clause; a path on which a call it names did not happen is
+// skipped (the dropped-obligation rule reports a clause that is skipped on every path).
+func (ex *Exec) evalLocalClause(env *SpecEnv, cl *Clause, con *Contract) (g string, skipped bool) {
+	defer func() {
+		if r := recover(); r != nil {
+			if strings.Contains(fmt.Sprint(r), "on this path (guard the clause") {
+				skipped = true
+				return
+			}
+			panic(r)
+		}
+	}()
+	return ex.evalClause(env, cl, con), false
 }
 
 func (ex *Exec) modelTerms(o *Obligation, env *SpecEnv, results []Val) {
@@ -558,6 +587,18 @@ func (ex *Exec) exitPanic(st *State) {
 // allocated during the call are always permitted).
 func (ex *Exec) checkFrame(st *State, env *SpecEnv, suffix string) {
 	con := ex.cur.con
+	for _, fg := range ex.frameGoals(st, env, nil) {
+		ex.newObl(st, "assigns", heapHuman(fg.heap)+suffix, fg.goal, "only locations in the assigns clause change: "+assignsText(con), con.Props)
+	}
+}
+
+type frameGoal struct{ heap, goal string }
+
+// frameGoals returns, per heap array that differs from its entry version, the
+// formula "it differs only at locations the assigns clause permits".  With
+// only != nil the result is restricted to those heaps (loop frames).
+func (ex *Exec) frameGoals(st *State, env *SpecEnv, only map[string]bool) (out []frameGoal) {
+	con := ex.cur.con
 	if !con.HasAssign || con.AssignsEv {
 		return
 	}
@@ -569,7 +610,10 @@ func (ex *Exec) checkFrame(st *State, env *SpecEnv, suffix string) {
 	sort.Strings(names)
 	for _, h := range names {
 		cur := st.heap[h]
-		if cur == h {
+		if cur == h || strings.HasPrefix(h, "IT!") {
+			continue
+		}
+		if only != nil && !only[h] {
 			continue
 		}
 		hs := ex.ctx.heapSortOf(h)
@@ -602,7 +646,7 @@ func (ex *Exec) checkFrame(st *State, env *SpecEnv, suffix string) {
 		default:
 			// ref-indexed
 			_, _, innerArr := arrayParts(inner)
-			var exact []string  // whole-object permissions
+			var exact []string // whole-object permissions
 			var ranged []loc
 			for _, l := range allowed {
 				if l.lo == "" && l.key == "" {
@@ -627,8 +671,9 @@ func (ex *Exec) checkFrame(st *State, env *SpecEnv, suffix string) {
 				goal = fmt.Sprintf("(forall ((r Ref) (j %s)) (=> %s (= (select (select %s r) j) (select (select %s r) j))))", iks, smtAnd(append([]string{guard}, outs...)...), cur, h)
 			}
 		}
-		ex.newObl(st, "assigns", heapHuman(h)+suffix, goal, "only locations in the assigns clause change: "+assignsText(con), con.Props)
+		out = append(out, frameGoal{h, goal})
 	}
+	return
 }
 
 func assignsText(con *Contract) string {
@@ -650,8 +695,17 @@ func heapHuman(h string) string {
 // loops
 
 type loopWrites struct {
-	heaps map[string]bool
-	all   bool
+	heaps     map[string]bool
+	all       bool
+	iterHeaps []string
+}
+
+func (w *loopWrites) heapSet() map[string]bool {
+	m := map[string]bool{}
+	for h := range w.heaps {
+		m[h] = true
+	}
+	return m
 }
 
 func (ex *Exec) staticHeapOfPtrType(t types.Type) []string {
@@ -755,6 +809,13 @@ func (ex *Exec) computeLoopWrites(fn *ssa.Function, li *loopInfo) *loopWrites {
 						w.heaps[h] = true
 					}
 				}
+			case *ssa.Next:
+				hn := "IT!" + smtIdent(fn.Name()+"."+x.Iter.Name())
+				if ex.ctx.heapSortOf(hn) != "" {
+					w.heaps[hn] = true
+				} else {
+					w.iterHeaps = append(w.iterHeaps, hn)
+				}
 			case *ssa.MapUpdate:
 				mt := x.Map.Type().Underlying().(*types.Map)
 				vh, ph := c.mapHeaps(c.sortFor(mt.Key()), c.sortFor(mt.Elem()))
@@ -846,13 +907,17 @@ func (ex *Exec) loopCut(st *State, li *loopInfo, pred *ssa.BasicBlock) bool {
 		phis = append(phis, p)
 		inc = append(inc, ex.val(st, p.Edges[predIndex(b, pred)]))
 	}
-	var invs, decs []*Clause
+	var invs, decs, steps, enters []*Clause
 	for _, cl := range con.Clauses {
 		if cl.Loop == li.ordinal || (cl.Loop == 0 && len(fr.loops) == 1) {
 			if cl.Kind == "invariant" {
 				invs = append(invs, cl)
 			} else if cl.Kind == "decreases" {
 				decs = append(decs, cl)
+			} else if cl.Kind == "step" {
+				steps = append(steps, cl)
+			} else if cl.Kind == "enter" {
+				enters = append(enters, cl)
 			}
 		}
 	}
@@ -893,6 +958,28 @@ func (ex *Exec) loopCut(st *State, li *loopInfo, pred *ssa.BasicBlock) bool {
 			g := ex.evalClause(env, cl, con)
 			ex.newObl(st, "invariant", fmt.Sprintf("%s@loop%d.preserved", cl.Label, li.ordinal), g, cl.Src, ex.propsOf(cl, con))
 		}
+		if len(steps) > 0 {
+			// step clauses: a fact about every completed iteration, stated over the values
+			// at the loop head (at_head(x)) and at the back edge
+			senv := mkEnv(inc, names)
+			senv.head = map[string]Val{}
+			for _, p := range phis {
+				if p.Comment != "" {
+					hv := fr.vals[p]
+					hv.Ty = p.Type()
+					senv.head[p.Comment] = hv
+				}
+			}
+			for _, cl := range steps {
+				g := ex.evalClause(senv, cl, con)
+				ex.newObl(st, "step", fmt.Sprintf("%s@loop%d", cl.Label, li.ordinal), g, cl.Src, ex.propsOf(cl, con))
+			}
+		}
+		if w := run.writes[b.Index]; w != nil {
+			for _, fg := range ex.frameGoals(st, ex.funcEnv(st), w.heapSet()) {
+				ex.newObl(st, "assigns", fmt.Sprintf("%s@loop%d.preserved", heapHuman(fg.heap), li.ordinal), fg.goal, "only locations in the assigns clause change (loop frame): "+assignsText(con), con.Props)
+			}
+		}
 		for _, cl := range decs {
 			m0 := st.measures[fmt.Sprintf("%d.%s", b.Index, cl.Label)]
 			nv := env.eval(cl.Expr)
@@ -922,6 +1009,11 @@ func (ex *Exec) loopCut(st *State, li *loopInfo, pred *ssa.BasicBlock) bool {
 		g := ex.evalClause(env, cl, con)
 		ex.newObl(st, "invariant", fmt.Sprintf("%s@loop%d.init", cl.Label, li.ordinal), g, cl.Src, ex.propsOf(cl, con))
 	}
+	// enter clauses: the state in which the loop is first reached (the base case that goes with step clauses)
+	for _, cl := range enters {
+		g := ex.evalClause(env, cl, con)
+		ex.newObl(st, "enter", fmt.Sprintf("%s@loop%d", cl.Label, li.ordinal), g, cl.Src, ex.propsOf(cl, con))
+	}
 	// havoc
 	w := run.writes[b.Index]
 	if w == nil {
@@ -935,9 +1027,30 @@ func (ex *Exec) loopCut(st *State, li *loopInfo, pred *ssa.BasicBlock) bool {
 	for h := range w.heaps {
 		hs = append(hs, h)
 	}
+	for _, h := range w.iterHeaps {
+		if ex.ctx.heapSortOf(h) != "" {
+			hs = append(hs, h)
+		}
+	}
 	sort.Strings(hs)
+	// the function's own frame is an implicit invariant of every loop: checked
+	// on arrival and around the back edge, assumed for the havocked heaps
+	for _, fg := range ex.frameGoals(st, ex.funcEnv(st), w.heapSet()) {
+		ex.newObl(st, "assigns", fmt.Sprintf("%s@loop%d.init", heapHuman(fg.heap), li.ordinal), fg.goal, "only locations in the assigns clause change (loop frame): "+assignsText(con), con.Props)
+	}
 	for _, h := range hs {
 		st.hhavoc(h)
+	}
+	for _, fg := range ex.frameGoals(st, ex.funcEnv(st), w.heapSet()) {
+		st.assume(fg.goal)
+	}
+	// keys already yielded by a map iterator were present when the range statement started
+	for _, h := range hs {
+		for _, it := range st.iters {
+			if h == it.Heap {
+				st.assume(fmt.Sprintf("(forall ((k %s)) (! (=> (select %s k) (select %s k)) :pattern ((select %s k))))", it.KS, st.hget(h), it.Pres, st.hget(h)))
+			}
+		}
 	}
 	vals := make([]Val, len(phis))
 	for i, p := range phis {
